@@ -9,5 +9,14 @@ CHECKS = [
     {'id': 'C18', 'technique': 'probe-driven law monitor (permutation, run-reversal model from conf.h classes) + Unicode-decomposition oracle for shaping, ASan+UBSan',
      'text': 'dir_reorder/dir_context/ren_position/uc_shape/ren_translate of the real code are evaluated on all short lines over an 8-symbol bidi alphabet and on random mixes for every textdirection value; results must be permutations with the terminator last, equal the run-reversal model where only letter runs are involved, and shaped letters must be the presentation form Unicode assigns for the joining context.',
      'note': 'character classes read from conf.h; Unicode data from Python unicodedata; U+0649 exception documented'},
+    {'id': 'C10', 'technique': 'reference-model monitor: real rset_make/rset_find (ASan+UBSan probe) vs an independent AST-interpreting backtracking matcher; depth-cut hook gates the completeness clause',
+     'text': 'All small expressions over the token alphabet (exhaustive in thorough, seed-chosen slice in quick) on all short lines and flag combinations, random larger patterns with classes/ranges/bounded repeats on multi-byte lines, pattern sets for the index clause and depth-limit witnesses; each reported span is checked for genuineness, leftmost-ness, priority order and group spans against the reference matcher.',
+     'note': 'reference matcher written from the statement (priority-ordered backtracking); cases with a counted depth cut or empty-iterating unbounded loops are checked for soundness only'},
+    {'id': 'C11', 'technique': 'exhaustive-small sanitizer run (ASan+UBSan) with in-probe range/char-boundary assertions, step budget and watchdog; directed pool also typed into the real binary',
+     'text': 'Every string up to length 5 (quick) / 6 (thorough) over 16 metacharacters, random byte strings and a directed pool of malformed constructs are compiled through both rset_make and rstr_make and matched against a family of lines; any sanitizer report, crash, hang or offset outside 0<=so<=eo<=len / off a character boundary is a violation.',
+     'note': 'ASan/UBSan detect what leaves an object or overflows; termination = within step budget and watchdog'},
+    {'id': 'C12', 'technique': 'differential monitor: rstr_make/rstr_find vs rset_make/rset_find on identical inputs inside the ASan+UBSan probe, exhaustive over a small domain',
+     'text': 'All anchor/word-boundary combinations x all short literals x all short newline-terminated lines x icase x NOTBOL x NOTEOL (tens of millions of comparisons), plus random longer cases and operator-insertion cases: found/not-found, offsets and unset groups must agree between the literal search and the general engine.',
+     'note': 'the general engine is the reference; comparisons in which the engine hit its depth limit are discarded'},
 ]
 NOT_BUILT = {}
